@@ -257,6 +257,10 @@ class Quaternion(TupleCoord):
 
     def data(self, wanted_components=None):
         if wanted_components == 3:
+            # W is left out and assumed to be non-negative when this gets unpacked again.
+            # q and -q are the same rotation, so flip the sign of the rest if W is negative.
+            if self.W < 0:
+                return -self.X, -self.Y, -self.Z
             return self.X, self.Y, self.Z
         return self.X, self.Y, self.Z, self.W
 
